@@ -207,7 +207,7 @@ Theorem C12_gen_retry_Dequeue_decisions :
   rq_find q k = Some r ->
   deq_visit dexp now n (q, out, false) k =
   match g_rq_dequeue_body (expired dexp r now) (q_pend r) (elapsed r now) (Z.of_nat (length (out ++ [q_pl r]))) n with
-  | ([1], Cont) => (rq_remove q k, out, false)
+  | ([1], Fall) => (rq_remove q k, out, false)
   | ([2; 3; 4], Brk) => (rq_put q k (set_pending r), out ++ [q_pl r], true)
   | ([2; 3; 4], Fall) => (rq_put q k (set_pending r), out ++ [q_pl r], false)
   | _ => (q, out, false)
@@ -243,7 +243,7 @@ Print Assumptions C12_gen_eligible_routing.
 Theorem C12_gen_ineligible_routing :
   forall r (upd_err : bool),
   g_pp_ineligible_body (Z.of_N (r_state r)) (r_elig r) upd_err =
-  if inelig_ok r then (if upd_err then ([1; 2], Cont) else ([1; 3], Fall)) else ([], Fall).
+  if inelig_ok r then (if upd_err then ([1; 2], Fall) else ([1; 3], Fall)) else ([], Fall).
 Proof. exact gen_pp_ineligible. Qed.
 Print Assumptions C12_gen_ineligible_routing.
 
@@ -252,7 +252,7 @@ Theorem C12_gen_retry_routing :
   forall r (found enq_ok : bool),
   g_pp_retry_body (Z.of_N (r_state r)) (r_retry r) found enq_ok =
   if retry_fail r then
-    (if found then (if enq_ok then ([1; 3; 4; 5], Fall) else ([1; 3; 5], Fall)) else ([1; 2], Cont))
+    (if found then (if enq_ok then ([1; 3; 4; 5], Fall) else ([1; 3; 5], Fall)) else ([1; 2], Fall))
   else ([], Fall).
 Proof. exact gen_pp_retry. Qed.
 Print Assumptions C12_gen_retry_routing.
@@ -270,7 +270,7 @@ Print Assumptions C12_gen_payloadOf_decisions.
 Theorem C12_gen_payloadOf_loop :
   forall p_wid r_wid p_blk r_blk p_hash r_hash found,
   g_pp_payloadOf_body p_wid r_wid p_blk r_blk p_hash r_hash found =
-  if negb (p_wid =? r_wid) then ([], Cont)
+  if negb (p_wid =? r_wid) then ([], Fall)
   else if (p_blk =? r_blk) && (p_hash =? r_hash) then ([], RetO 1)
   else if found <? 0 then ([1], Fall) else ([], Fall).
 Proof. exact gen_pp_payloadOf_body. Qed.
@@ -316,7 +316,7 @@ Print Assumptions C12_gen_Observer_Process_steps.
 Theorem C12_gen_flow_filters :
   forall already empty : bool,
   g_proposal_filterer_body already = (if already then ([], Fall) else ([1], Fall)) /\
-  g_final_flow_tick_body empty = (if empty then ([1], Cont) else ([2], Fall)).
+  g_final_flow_tick_body empty = (if empty then ([1], Fall) else ([2], Fall)).
 Proof. exact gen_flow_filters. Qed.
 Print Assumptions C12_gen_flow_filters.
 
